@@ -13,7 +13,7 @@ RULE = ('seeded sessions of 1-6 stream operations (shell, exec_out, streaming_sh
         '>= 1 multi-WRITE transfer in the run; distinct = event-log digests')
 ASSUMPTIONS = ['the device stalls until the OKAY it is owed arrives, as adbd does, so a missing OKAY becomes a timeout',
                'that list/stat/pull close their stream is C08/C09\'s statement; reboot() legitimately leaves its stream open']
-EXPECT_PROBES = {'all': ['wrte_with_zero_remote_id', 'open_refused', 'c04_abandoned_generator', 'c04_request_longer_than_maxdata', 'c04_nested_streams', 'c04_open_fills_maxdata', 'c04_multi_wrte_push', 'c04_ge_4_streams', 'empty_payload_wrte_acked', 'push_fail_sent', 'fail_before_okay', 'wrte_in_flight_at_host_close', 'recv_closed_mid_transfer', 'late_okay']}
+EXPECT_PROBES = {'all': ['wrte_with_zero_remote_id', 'open_refused', 'c04_abandoned_generator', 'c04_request_longer_than_maxdata', 'c04_nested_streams', 'c04_open_fills_maxdata', 'c04_multi_wrte_push', 'c04_ge_4_streams', 'empty_payload_wrte_acked', 'push_fail_sent', 'fail_before_okay', 'wrte_in_flight_at_host_close', 'recv_closed_mid_transfer', 'late_okay', 'cmd_exits_late']}
 KINDS = ['shell', 'exec_out', 'streaming_shell', 'root', 'list', 'stat', 'pull', 'pull', 'push', 'push']
 OWN = ('protocol', 'wrong-result', 'unexpected-exception', 'timeout-instead-of-result', 'missing-exception', 'wrong-exception', 'hang', 'no-termination',
        'unacked-write', 'clse-count')
@@ -110,6 +110,17 @@ def generate(seed, tier):
                 scn['actors'][0].append({'op': 'pull', 'path': long + '/f', 'dest': 'bytesio'})
             else:
                 scn['actors'][0].append({'op': 'push', 'src': 'bytesio', 'content': {'seed': g.int(0, 99), 'size': g.int(0, 2000), 'alpha': 'bin'}, 'path': long + '/p%d' % k, 'mtime': 3})
+    elif c == 9:
+        # a command given timeout_s that writes in time and exits (CLSE) only after the deadline, every single wait being shorter than
+        # any of the timeouts: whatever the call then does, the device's CLSE is answered by exactly one CLSE
+        name = S.add_cmd(g, d, 100)
+        spec = d['cmds'][name]
+        spec['content']['size'] = g.int(0, 200)
+        spec['cuts'] = []
+        spec['think'] = [0.6]
+        spec['exit_delay'] = g.pick([0.6, 0.9])
+        d['latency'] = {'mode': 'zero'}
+        scn['actors'][0].append({'op': g.pick(['shell', 'streaming_shell']), 'cmd': name, 'decode': False, 'to': 1.0, 'late_exit': True})
     if g.chance(0.15) and 4096 <= d['maxdata'] <= 16384:
         # destinations right up to what fits into one message of this device (OPEN payload = destination + NUL <= maxdata)
         k = g.pick(['shell', 'exec_out', 'streaming_shell'])
@@ -173,6 +184,12 @@ def evaluate(case, tapes=None):
             shell_family = s.dest.startswith((b'shell:', b'exec:', b'root:'))
             if shell_family and s.dev_clse_read and s.host_clse_count != 1:
                 probs.append(O.P('clse-count', 'stream %d (%s): device CLSE was delivered, host sent %d CLSE' % (s.local, s.dest[:20], s.host_clse_count)))
+    for r in recs:
+        # the command that exits after its timeout_s: whether the call returns the output or reports the timeout, a CLSE it has read is answered
+        if r['spec'].get('late_exit') and not run.abort and (r['ok'] or r.get('exc') == 'AdbTimeoutError') and not all_ok:
+            for s in dev.all_streams:
+                if r['pk0'] <= s.open_pk < r['pk1'] and s.dev_clse_read and s.host_clse_count != 1:
+                    probs.append(O.P('clse-count', 'stream %d (%s): the device CLSE (sent after timeout_s had passed) was read, host sent %d CLSE' % (s.local, s.dest[:20], s.host_clse_count)))
     if any(r.get('nested') for r in recs):
         pr['c04_nested_streams'] = 1
     if any(r['op'] == 'ss_drop' for r in recs):
